@@ -169,6 +169,18 @@ theorem codec_pack_in_place (d : List UInt8) :
     · exact Or.inl h
     · exact Or.inr (by omega)
 
+/-- **Unpacking in place never overwrites an unread packet** (`dsqdata_unpack_chunk` unpacks inside `smem`, the packed
+    data having been read to its end: `psq = smem + U - 4·maxpacket`). For ANY packet contents (`packetResidues` is what
+    `dsqdata_unpack5` / `unpack2` emit for a packet - `unpack_head_eod`, `unpack_head_more`), every chunk with at most
+    `maxpacket` packets and `maxseq` sequences, and `U ≥ {6|15}·maxpacket + maxseq + 1` as `dsqdata_chunk_Create`
+    allocates: when packet `p` is about to be read, all bytes written so far lie below its first byte, and at the end
+    everything written fits `smem`. -/
+theorem codec_unpack_in_place (mode5 : Bool) (ps : List UInt32) (maxpacket maxseq U : Nat)
+    (hpn : ps.length ≤ maxpacket) (hN : eodCount ps ≤ maxseq) (hU : per mode5 * maxpacket + maxseq + 1 ≤ U) :
+    (∀ p, p < ps.length → writeFront mode5 (ps.take p) 1 ≤ (U - 4 * maxpacket) + 4 * p) ∧
+    writeFront mode5 ps 1 ≤ U :=
+  unpack_in_place_safe mode5 ps maxpacket maxseq U hpn hN hU
+
 example : (∀ x ∈ [0, 1, 2, 3, 15, 30, 0, (7 : UInt8)], x ≤ 30) := by decide
 example : unpack2 (pack2 [0, 1, 2, 3, 15, 30, 0, 7]) = some ([0, 1, 2, 3, 15, 30, 0, 7], 2) := by decide +kernel
 /-- the hypothesis `≤ 30` is needed: code 31 is read back as the end marker -/
